@@ -322,7 +322,11 @@ def run(F, rep):
             e2 = e2['c'][0]
         if e2.get('k') == 'Bool':
             if e2.get('v'):
-                bad19.append('true')
+                # a bare `true` takes its meaning from the tests that hold where it is given (`if (traverse...(c)) return true;`)
+                site_ = next((x for x in hu.walk() if any(y is e_ for y in walk(x)) and x.get('k') in ('Return', 'Bin', 'Var')), None)
+                held_ = {x.get('fn') for c3, t3 in (ff(hu).conds_at(site_) or []) if t3 for x in walk(c3) if x.get('k') == 'Call' and not x.get('opc')} if site_ is not None else set()
+                if 'traverseComponentTreeForUnlinkedUnits' not in held_:
+                    bad19.append('true')
             continue
         calls = {x.get('fn') for x in walk(e2) if x.get('k') == 'Call' and not x.get('opc')}
         if not calls or not calls <= {'traverseComponentTreeForUnlinkedUnits'}:
